@@ -20,7 +20,7 @@ from .kernel import norm, op_place
 MAX_PATHS = 60000
 
 
-ITER_ADAPTORS = ('iter_filter', 'iter_map', 'iter_filter_map')
+ITER_ADAPTORS = ('iter_filter', 'iter_map', 'iter_filter_map', 'iter_take_while', 'iter_skip_while')
 
 
 class PathLimit(Exception):
@@ -641,6 +641,25 @@ class SymEx:
 
     def assume(self, st, d, val, arms, negated):
         """Record the branch decision. For boolean terms store truth; for discriminants store value."""
+        if isinstance(d, tuple) and d and d[0] == 'discr' and isinstance(d[1], tuple) and d[1] and d[1][0] == 'ordering':
+            # `match a.cmp(&b)`: the arm taken is a comparison literal (Less = -1 / 255, Equal = 0, Greater = 1)
+            a_, b_ = d[1][1], d[1][2]
+            LESS = (-1, 255)
+            def lit(v_):
+                return (mk_cmp('lt', a_, b_), True) if v_ in LESS else ((mk_cmp('eq', a_, b_), True) if v_ == 0 else (mk_cmp('lt', b_, a_), True))
+            if not negated:
+                t_, tv = lit(val)
+                st.conds.append((t_, tv)); st.known[t_] = tv
+            else:
+                rest = [x for x in ('L', 0, 1) if not ((x == 'L' and any(v_ in LESS for v_ in val)) or (x != 'L' and x in val))]
+                if len(rest) == 1:
+                    t_, tv = lit(-1 if rest[0] == 'L' else rest[0])
+                    st.conds.append((t_, tv)); st.known[t_] = tv
+                elif len(val) == 1:
+                    t_, tv = lit(val[0])
+                    st.conds.append((t_, not tv)); st.known[t_] = (not tv)
+            st.conds.append((d, val if not negated else ('not', tuple(val))))
+            return
         if not negated:
             if self.is_boolish(d) or d[0] in ('call', 'fld', 'param', 'payload', 'unk', 'ovf', 'boolor', 'booland'):
                 if len(arms) == 1 and arms[0][0] == 0:
@@ -856,6 +875,139 @@ class SymEx:
         if ext in ('std::mem::drop', 'core::mem::drop') and args:
             st.events.append(('call', ext, tuple(args), line, b.nid, None))
             return ('c', '()')
+        if ext in ('std::cmp::Ord::cmp',) and len(args) == 2:
+            return ('ordering', self.load(st, args[0], b), self.load(st, args[1], b))
+        if ext in ('std::cmp::PartialOrd::partial_cmp',) and len(args) == 2:
+            return some(('ordering', self.load(st, args[0], b), self.load(st, args[1], b)))
+        if ext.startswith('std::cmp::Ordering::is_') and args and isinstance(args[0], tuple) and args[0] and args[0][0] == 'ordering':
+            a_, b_ = args[0][1], args[0][2]
+            return {'is_lt': mk_cmp('lt', a_, b_), 'is_le': mk_cmp('le', a_, b_), 'is_gt': mk_cmp('lt', b_, a_), 'is_ge': mk_cmp('le', b_, a_),
+                    'is_eq': mk_cmp('eq', a_, b_), 'is_ne': mk_cmp('ne', a_, b_)}.get(last)
+        if ext in ('std::mem::replace', 'core::mem::replace') and len(args) == 2 and raw:
+            old = self.load(st, raw[0], b)
+            self.store(st, raw[0], args[1], b, line, True)
+            return old
+        if ext in ('std::mem::take', 'core::mem::take') and args and raw:
+            old = self.load(st, raw[0], b)
+            dty = b.local_ty(dest['l'])['s'] if not dest.get('p') else ''
+            dv = NONE if dty.startswith('std::option::Option<') else (('c', 0) if dty in ('u8', 'u16', 'u32', 'u64', 'u128', 'usize') else (('c', False) if dty == 'bool' else ('default', dty)))
+            self.store(st, raw[0], dv, b, line, True)
+            return old
+        if ext in ('std::mem::swap', 'core::mem::swap') and len(args) == 2 and raw:
+            x_, y_ = self.load(st, raw[0], b), self.load(st, raw[1], b)
+            self.store(st, raw[0], y_, b, line, True)
+            self.store(st, raw[1], x_, b, line, True)
+            return ('c', '()')
+        if (ext in ('std::primitive::bool::then', 'core::bool::then') or (last == 'then' and 'bool' in ext)) and len(args) == 2:
+            s_f = st.fork()
+            if self.assume_bool(s_f, args[0], False):
+                resume(s_f, NONE)
+            if self.assume_bool(st, args[0], True):
+                self.apply_fn((raw or args)[1], [], st, depth, out, lambda s3, rv: resume(s3, some(rv)))
+            return 'handled'
+        if ext.startswith('std::option::Option::') and last in ('zip', 'or', 'or_else', 'and', 'is_some_and', 'is_none_or', 'map_or_else', 'ok_or_else', 'replace', 'insert', 'get_or_insert_with') and args:
+            o = self.load(st, args[0], b)
+            loc = raw[0] if raw else args[0]
+            for (s2, is_some, payload) in self.option_cases(st, o):
+                if last == 'zip':
+                    if not is_some:
+                        resume(s2, NONE); continue
+                    for (s3, is2, p2) in self.option_cases(s2, self.load(s2, args[1], b)):
+                        resume(s3, some(('tuple', (payload, p2))) if is2 else NONE)
+                elif last == 'or':
+                    resume(s2, some(payload) if is_some else args[1])
+                elif last == 'or_else':
+                    if is_some:
+                        resume(s2, some(payload))
+                    else:
+                        self.apply_fn((raw or args)[1], [], s2, depth, out, lambda s3, rv: resume(s3, rv))
+                elif last == 'and':
+                    resume(s2, args[1] if is_some else NONE)
+                elif last in ('is_some_and', 'is_none_or'):
+                    if not is_some:
+                        resume(s2, ('c', last == 'is_none_or'))
+                    else:
+                        self.apply_fn((raw or args)[1], [payload], s2, depth, out, lambda s3, rv: resume(s3, rv))
+                elif last == 'map_or_else':
+                    if is_some:
+                        self.apply_fn((raw or args)[2], [payload], s2, depth, out, lambda s3, rv: resume(s3, rv))
+                    else:
+                        self.apply_fn((raw or args)[1], [], s2, depth, out, lambda s3, rv: resume(s3, rv))
+                elif last == 'ok_or_else':
+                    if is_some:
+                        resume(s2, ('aggr', RESULT, 'Ok', (payload,)))
+                    else:
+                        self.apply_fn((raw or args)[1], [], s2, depth, out, lambda s3, rv: resume(s3, ('aggr', RESULT, 'Err', (rv,))))
+                elif last in ('replace', 'insert'):
+                    self.store(s2, loc, some(args[1]), b, line, True)
+                    resume(s2, (some(payload) if is_some else NONE) if last == 'replace' else args[1])
+                elif last == 'get_or_insert_with':
+                    if is_some:
+                        resume(s2, payload)
+                    else:
+                        def kg(s3, rv, _loc=loc):
+                            self.store(s3, _loc, some(rv), b, line, True)
+                            resume(s3, rv)
+                        self.apply_fn((raw or args)[1], [], s2, depth, out, kg)
+            return 'handled'
+        if ext.startswith('std::result::Result::') and last in ('ok', 'err', 'map', 'map_err', 'and_then', 'unwrap_or', 'unwrap_or_else', 'unwrap_or_default', 'is_ok_and', 'is_err_and', 'or_else') and args:
+            o = self.load(st, args[0], b)
+            if o[0] == 'aggr' and o[1] == RESULT:
+                cases = [(st, o[2] == 'Ok', o[3][0] if o[3] else ('c', '()'))]
+            else:
+                d_ = ('discr', o)
+                if d_ in st.known:
+                    ok_ = st.known[d_] == 0
+                    cases = [(st, ok_, self.load(st, ('payload', o, 'Ok' if ok_ else 'Err', 0)))]
+                else:
+                    s_e = st.fork()
+                    s_e.conds.append((d_, 1)); s_e.known[d_] = 1
+                    st.conds.append((d_, 0)); st.known[d_] = 0
+                    cases = [(st, True, self.load(st, ('payload', o, 'Ok', 0))), (s_e, False, self.load(s_e, ('payload', o, 'Err', 0)))]
+            clo = (raw or args)[1] if len(args) > 1 else None
+            for (s2, is_ok, pl) in cases:
+                okv, errv = ('aggr', RESULT, 'Ok', (pl,)), ('aggr', RESULT, 'Err', (pl,))
+                if last == 'ok':
+                    resume(s2, some(pl) if is_ok else NONE)
+                elif last == 'err':
+                    resume(s2, NONE if is_ok else some(pl))
+                elif last == 'map':
+                    if is_ok:
+                        self.apply_fn(clo, [pl], s2, depth, out, lambda s3, rv: resume(s3, ('aggr', RESULT, 'Ok', (rv,))))
+                    else:
+                        resume(s2, errv)
+                elif last == 'map_err':
+                    if is_ok:
+                        resume(s2, okv)
+                    else:
+                        self.apply_fn(clo, [pl], s2, depth, out, lambda s3, rv: resume(s3, ('aggr', RESULT, 'Err', (rv,))))
+                elif last == 'and_then':
+                    if is_ok:
+                        self.apply_fn(clo, [pl], s2, depth, out, lambda s3, rv: resume(s3, rv))
+                    else:
+                        resume(s2, errv)
+                elif last == 'or_else':
+                    if is_ok:
+                        resume(s2, okv)
+                    else:
+                        self.apply_fn(clo, [pl], s2, depth, out, lambda s3, rv: resume(s3, rv))
+                elif last == 'unwrap_or':
+                    resume(s2, pl if is_ok else args[1])
+                elif last == 'unwrap_or_else':
+                    if is_ok:
+                        resume(s2, pl)
+                    else:
+                        self.apply_fn(clo, [pl], s2, depth, out, lambda s3, rv: resume(s3, rv))
+                elif last == 'unwrap_or_default':
+                    dty = b.local_ty(dest['l'])['s'] if not dest.get('p') else ''
+                    dv = NONE if dty.startswith('std::option::Option<') else (('c', 0) if dty in ('u8', 'u16', 'u32', 'u64', 'u128', 'usize') else (('c', False) if dty == 'bool' else ('default', dty)))
+                    resume(s2, pl if is_ok else dv)
+                elif last in ('is_ok_and', 'is_err_and'):
+                    if is_ok == (last == 'is_ok_and'):
+                        self.apply_fn(clo, [pl], s2, depth, out, lambda s3, rv: resume(s3, rv))
+                    else:
+                        resume(s2, ('c', False))
+            return 'handled'
         if ext in ('std::result::Result::is_ok', 'std::result::Result::is_err') and args:
             o = self.load(st, args[0], b)
             if o[0] == 'aggr' and o[1] == RESULT:
@@ -1011,6 +1163,10 @@ class SymEx:
             # (items the predicate rejects are skipped by the adaptor itself: only the accepted item and exhaustion are outcomes)
             if last in ('filter', 'map', 'filter_map') and len(args) == 2 and (raw or args)[1][0] in ('closure', 'fn'):
                 return ('iter_' + last, args[0], (raw or args)[1])
+            if last in ('take_while', 'skip_while') and len(args) == 2 and (raw or args)[1][0] in ('closure', 'fn'):
+                return ('iter_' + last, args[0], (raw or args)[1])
+            if last in ('rev', 'peekable', 'fuse', 'by_ref', 'copied', 'cloned') and isinstance(args[0], tuple) and args[0] and args[0][0] in ITER_ADAPTORS + ('chan_iter', 'opt_iter'):
+                return args[0]
             if last in ('find', 'find_map') and len(args) == 2 and (raw or args)[1][0] in ('closure', 'fn'):
                 it = ('iter_filter' if last == 'find' else 'iter_filter_map', args[0], (raw or args)[1])
                 self.iter_next(b, st, it, depth, out, line, resume)
@@ -1070,11 +1226,20 @@ class SymEx:
                 payload = opt[3][0]
                 if kind == 'iter_map':
                     self.apply_fn(clo, [payload], s, depth, out, lambda s2, rv: k(s2, some(rv)))
-                elif kind == 'iter_filter':
-                    def kf(s2, rv):
-                        if self.assume_bool(s2, rv, True):
+                elif kind in ('iter_filter', 'iter_skip_while'):
+                    # skip_while: the first item that is yielded is one the predicate rejects (or the sequence ends) -- abstractly any item
+                    def kf(s2, rv, _want=(kind == 'iter_filter')):
+                        if self.assume_bool(s2, rv, _want):
                             k(s2, some(payload))
                     self.apply_fn(clo, [payload], s, depth, out, kf)
+                elif kind == 'iter_take_while':
+                    def ktw(s2, rv):
+                        s_f = s2.fork()
+                        if self.assume_bool(s_f, rv, False):
+                            k(s_f, NONE)
+                        if self.assume_bool(s2, rv, True):
+                            k(s2, some(payload))
+                    self.apply_fn(clo, [payload], s, depth, out, ktw)
                 else:
                     def kfm(s2, rv):
                         for (s3, is_some, pl) in self.option_cases(s2, rv):
